@@ -620,7 +620,11 @@ fn read_code<C: CodeVisitor>(
 
 						if low > high { bail!("in tableswitch `low` must be lower or equal to `high`, it's low={low:?} and high={high:?}"); }
 
-						let n = (high - low + 1) as u32; // always >= 1
+						// computed in i64, as `high - low + 1` can be as large as 2^32
+						let n = high as i64 - low as i64 + 1; // always >= 1
+						if n > (bytecode.len() / 4) as i64 {
+							bail!("in tableswitch the {n} entries for low={low:?} and high={high:?} don't fit into the code");
+						}
 
 						for _ in 0..n {
 							labels.create(r.read_i32_as_branch_target_label(opcode_pos)?)?;
